@@ -10,7 +10,7 @@ def plan(tier, seed):
             units.append(dict(hfile='free.py', fname='c06_free', args=(n, tol), summary_mode=True,
                               split=(64 if n >= 4 else (8 if n == 3 else 0)), hang_label='C06:hang'))
     kinds = ['group', 'bracket-arg', 'brace-arg', 'env', 'math-group', 'env-cmd', 'item-cmd', 'item-group', 'item-env', 'cmd-env',
-             'env-mismatch', 'open-only', 'dollar-group', 'env-arg', 'mathenv-cmd']
+             'env-mismatch', 'open-only', 'dollar-group', 'env-arg', 'mathenv-cmd', 'item-textbf', 'env-section', 'item-label-cmd']
     for kind in kinds:
         for d in ((40,) if tier == 'quick' else (8, 16, 24, 40)):
             for tol in (0, 1):
@@ -19,7 +19,7 @@ def plan(tier, seed):
     from vt import faultplan
     units += faultplan.fault_units(tier, seed)
     return dict(units=units,
-                bounds={'nesting': '15 container kinds (groups, arguments, environments, items, math, mixed, mismatched and unclosed) nested to depth 40 around one free character, both tolerance modes; step budget 400k calls then 5 s native watchdog', 'faulted_documents': 'every truncation (+ one free character), substitution of one position by a free character, insertion of a free character, deletion and adjacent transposition at every position of %d base documents (<= 40 / 60 characters)' % len(faultplan.base_docs(tier, seed)), 'free_strings': 'every string of length 0..%d over all code points 0..0x10FFFF' % nmax,
+                bounds={'nesting': '18 container kinds (groups, arguments, environments, items, math, mixed, mismatched and unclosed) nested to depth 40 around one free character, both tolerance modes; step budget 400k calls then 5 s native watchdog', 'faulted_documents': 'every truncation (+ one free character), substitution of one position by a free character, insertion of a free character, deletion and adjacent transposition at every position of %d base documents (<= 40 / 60 characters)' % len(faultplan.base_docs(tier, seed)), 'free_strings': 'every string of length 0..%d over all code points 0..0x10FFFF' % nmax,
                         'tolerance': [0, 1], 'mode': 'summary (lazy categories)'},
                 outside=['strings longer than %d characters unless covered by the skeleton faults' % nmax],
                 assumptions=['diagnostic = EOFError | TypeError "[Line: ..." | AssertionError with one of the two parser messages'])
